@@ -809,6 +809,7 @@ class Planner:
             "fd_integrals",
             "coordinate_derivative",
             "derivative_cd",
+            "derivative_cd",
             "remove_complex",
             "pickle",
         ]
